@@ -85,6 +85,9 @@ def credit_monitor(world):
 def gen_case(rng, tier):
     from .. import mixgen
     cfg = mixgen.draw_config(rng, links_allowed=mixgen.WITH_WS, frags=(None, None, 64, 100))
+    if rng.random() < 0.15:
+        # a lease-honouring client: its requests wait for the server's (small, then unlimited) leases
+        cfg['lease'] = mixgen.draw_leases(rng)
     specs = []
     iid = 1
     for side in 'cs':
